@@ -478,6 +478,22 @@ func runCase(c caseSpec) (fail string, labels map[string]bool) {
 		}
 		rd.Close()
 	}
+	if c.end != "kill-blocked" {
+		// the only consumer is gone: nothing may stay requested on its behalf
+		sim.Settle()
+		req := tor.VerifRequested(t)
+		var idx []int
+		for i := range req {
+			idx = append(idx, int(i))
+		}
+		sort.Ints(idx)
+		for _, i := range idx {
+			if len(req[uint32(i)].Prio) > 0 {
+				return fmt.Sprintf("the reader has been closed, yet piece %d is still requested with priorities %v: they are never withdrawn\n%s", i, req[uint32(i)].Prio, describe()), labels
+			}
+		}
+		labels["priorities-withdrawn-at-end"] = true
+	}
 	return "", labels
 }
 
@@ -538,5 +554,24 @@ func TestReg_c02_evicted_complete_piece(t *testing.T) {
 	}
 	if leak != "" {
 		t.Fatalf("leak: %s", leak)
+	}
+}
+
+// Regression: a reader whose current piece is piece 0 never withdrew its
+// priorities (request(-1, -1) computed -1 / pieceSize == 0, "still the same
+// piece", and returned early).
+func TestReg_c02_reader_in_piece_0_leaks_priorities(t *testing.T) {
+	for _, end := range []string{"close", "cancel-blocked"} {
+		c := caseSpec{g: sim.Geometry{PieceSize: 16384, Length: 16384 * 4, Seed: 6}, off: 0, len: 1000,
+			prefill: []int{0, 1, 2, 3}, idleRate: 0, end: end,
+			steps: []step{{Kind: "read", N: 100}}}
+		var fail string
+		leak := sim.Bubble(t, func() { fail, _ = runCase(c) })
+		if fail != "" {
+			t.Fatalf("%s", fail)
+		}
+		if leak != "" {
+			t.Fatalf("leak: %s", leak)
+		}
 	}
 }
